@@ -2,8 +2,10 @@ use crate::engine::{Ctx, Outcome, Report};
 use serde_json::Value;
 
 pub mod c01;
+pub mod c02;
 pub mod c05;
 pub mod c06;
+pub mod c08;
 pub mod c11;
 pub mod c13;
 pub mod c16;
@@ -18,8 +20,10 @@ pub struct Prop {
 pub fn all() -> Vec<Prop> {
     vec![
         Prop { id: "C01", run: c01::run, replay: c01::replay },
+        Prop { id: "C02", run: c02::run, replay: c02::replay },
         Prop { id: "C05", run: c05::run, replay: c05::replay },
         Prop { id: "C06", run: c06::run, replay: c06::replay },
+        Prop { id: "C08", run: c08::run, replay: c08::replay },
         Prop { id: "C11", run: c11::run, replay: c11::replay },
         Prop { id: "C13", run: c13::run, replay: c13::replay },
         Prop { id: "C16", run: c16::run, replay: c16::replay },
